@@ -698,7 +698,7 @@ def c08(tier, seed):
         g, scs = gen_scenarios("C08", "Gen_Curve", env={"NOPS": 2, "NVAR": 1, "SALT": seed}, timeout=1200)
         v.add_tlc(g)
         scs = scs[seed % 60::60]
-    g, s2 = gen_scenarios("C08", "Gen_Curve", env={"NOPS": 5, "NVAR": 1, "SALT": seed}, simulate=2500 if th else 90, depth=14, seed=seed, workers=1)
+    g, s2 = gen_scenarios("C08", "Gen_Curve", env={"NOPS": 5, "NVAR": 1, "SALT": seed}, simulate=2500 if th else 450, depth=14, seed=seed, workers=1)
     v.add_tlc(g)
     scs += s2
     v.exhaustive = False
